@@ -21,6 +21,7 @@ package main
 //	x.IndexFunc(func(gc []rune) bool { return !unicode.IsSpace(gc[0]) })
 //	                                            gindex_func not_space_cluster x
 //	x.LastIndexFunc(the same closure)           glast_index_func not_space_cluster x
+//	   (the closure as a literal, or the name of a package-level function with exactly that body)
 //	CountLeadingWhitespace(x)                   go_CountLeadingWhitespace x   (translated too)
 //	s == ""  /  s != ""    (s string)           str_empty s / negb (str_empty s)
 //	opts.F  /  opts.F = e  (Options)            o_f opts / set_o_f opts e   (Inst/GoRt.v)
